@@ -169,6 +169,12 @@ func readFullLine(reader *bufio.Reader) (string, error) {
 		l, more, err := reader.ReadLine()
 
 		if err != nil {
+			if err == io.EOF && len(line) > 0 {
+				// The input ended in the middle of a long line (no
+				// trailing newline): what was read so far is the line
+				break
+			}
+
 			return "", err
 		}
 
